@@ -96,6 +96,11 @@ type Case struct {
 	Padding int `json:"padding,omitempty"`
 	// EarlierTheme: the Renderer first decodes the same bytes under another full palette.
 	EarlierTheme bool `json:"earlier_theme,omitempty"`
+	// PalGradient: the graphic begins with a two-stop gradient whose stop colours it never
+	// writes: registers Uses[0] and Uses[0]+1 as the final palette seeded them.
+	PalGradient bool `json:"pal_gradient,omitempty"`
+	// Copied: the Renderer that is decoded into is a copy (plain assignment) made after SetRasterizer.
+	Copied bool `json:"copied,omitempty"`
 }
 
 func paddingColour(j int) color.RGBA { return color.RGBA{uint8(j*7 + 1), uint8(j*3 + 2), uint8(255 - j), 0xff} }
@@ -151,6 +156,18 @@ func buildGraphic(c Case) ([]byte, error) {
 		enc.ClosePathEndPath()
 	}
 	k := 0
+	if c.PalGradient && len(c.Uses) > 0 {
+		u := uint8(c.Uses[0])
+		enc.SetNSel(20)
+		for j, v := range []float32{1.0 / 64, 0, 0.5, 0, 1.0 / 64, 0.5} {
+			enc.SetNReg(uint8(6-j), false, v)
+		}
+		enc.SetNReg(0, true, 0)
+		enc.SetNReg(0, true, 1)
+		enc.SetCSel((u + 40) & 63)
+		enc.SetCReg(0, false, ivg.RGBAColor(ivg.EncodeGradient(u, 20, 0, 1, 2)))
+		square(0, 15)
+	}
 	if c.ReadFirst && len(c.Uses) > 0 {
 		u := uint8(c.Uses[0])
 		enc.SetCSel((u + 33) & 63)
@@ -348,12 +365,21 @@ func checkOptions(c Case) error {
 	rr := &rast.Recorder{}
 	var z render.Renderer
 	z.SetRasterizer(rr, image.Rect(0, 0, 64, c.Height))
+	if c.Copied {
+		z2 := z // a Renderer is a plain struct: a copy is as good as the original
+		z = render.Renderer{}
+		return paintPart(c, &z2, rr, src, opts, sanitised, rec, srcCopy, callerPalettes, callerCopies)
+	}
+	return paintPart(c, &z, rr, src, opts, sanitised, rec, srcCopy, callerPalettes, callerCopies)
+}
+
+func paintPart(c Case, zp *render.Renderer, rr *rast.Recorder, src []byte, opts []decode.DecodeOption, sanitised [64]color.RGBA, rec *ops.Recorder, srcCopy []byte, callerPalettes []*[64]color.RGBA, callerCopies [][64]color.RGBA) error {
 	if c.EarlierTheme {
 		var other [64]color.RGBA
 		for i := range other {
 			other[i] = color.RGBA{uint8(0x90 + i), uint8(3 * i), uint8(0xf0 - 2*i), 0xff}
 		}
-		if err := decode.Decode(&z, src, decode.WithPalette(other)); err != nil {
+		if err := decode.Decode(zp, src, decode.WithPalette(other)); err != nil {
 			return harness.Violatef("c14/decode-error", "Decode into a Renderer under another palette: %v", err)
 		}
 		// ... and then another graphic under that palette: the same colour-register writes
@@ -369,12 +395,12 @@ func checkOptions(c Case) error {
 		e2.AbsLineTo(9, 9)
 		e2.ClosePathEndPath()
 		if b2, err := e2.Bytes(); err == nil {
-			decode.Decode(&z, append([]byte{}, b2...), decode.WithPalette(other))
+			decode.Decode(zp, append([]byte{}, b2...), decode.WithPalette(other))
 		}
 	}
 	for pass := 0; pass < 2; pass++ {
 		rr.Calls = rr.Calls[:0]
-		hook := &ops.Recorder{Inner: &z}
+		hook := &ops.Recorder{Inner: zp}
 		if err := decode.Decode(hook, src, opts...); err != nil {
 			return harness.Violatef("c14/decode-error", "Decode into a Renderer: %v", err)
 		}
@@ -409,6 +435,20 @@ func checkOptions(c Case) error {
 				di++
 				if d.Kind != "uniform" || d.Uniform != pp.Flat {
 					return harness.Violatef("c14/paint", "path %d painted with %v; the options give palette-derived colour %v", pi, describe(d), pp.Flat)
+				}
+			case spec.PaintGradient:
+				if di >= len(draws) {
+					return harness.Violatef("c14/paint", "path %d must be painted with a gradient of the palette-derived colours %v but was not drawn", pi, pp.Grad.Colors)
+				}
+				d := draws[di]
+				di++
+				if d.Kind != "gradient" || len(d.Colors) != len(pp.Grad.Colors) {
+					return harness.Violatef("c14/paint", "path %d painted with %v; the options give a gradient of the palette-derived colours %v", pi, describe(d), pp.Grad.Colors)
+				}
+				for i := range d.Colors {
+					if d.Colors[i] != pp.Grad.Colors[i] {
+						return harness.Violatef("c14/paint", "path %d: gradient stop %d is %v; the options give the palette-derived colour %v", pi, i, d.Colors[i], pp.Grad.Colors[i])
+					}
 				}
 			default:
 				return harness.Violatef("c14/harness", "reference prescribes %v for a palette-driven graphic", pp.Kind)
@@ -596,6 +636,14 @@ func TestOptions(t *testing.T) {
 		if c.Prefix == 0 && c.Observe == 0 && no > 0 && rapid.IntRange(0, 3).Draw(t, "padding") == 0 {
 			c.Padding = rapid.SampledFrom([]int{58, 59, 63, 64, 65, 100, 127, 128, 200, 255, 256}).Draw(t, "npadding")
 			labels = append(labels, "long-option-list(59-260)")
+		}
+		if rapid.IntRange(0, 3).Draw(t, "palgradient") == 0 {
+			c.PalGradient = true
+			labels = append(labels, "gradient-whose-stops-are-the-palette's-entries-(never-written)")
+		}
+		if rapid.IntRange(0, 3).Draw(t, "copied") == 0 {
+			c.Copied = true
+			labels = append(labels, "renderer-copied-after-SetRasterizer")
 		}
 		if rapid.IntRange(0, 2).Draw(t, "readfirst") == 0 {
 			c.ReadFirst = true
